@@ -13,7 +13,8 @@ spec = importlib.util.spec_from_loader("vcheck_mod", loader)
 vc = importlib.util.module_from_spec(spec)
 loader.exec_module(vc)
 n = int(sys.argv[1]); mode = sys.argv[2] if len(sys.argv) > 2 else "double"; seed = int(sys.argv[3]) if len(sys.argv) > 3 else 0
-binp = vc.build_binary("C06", vc.CHECKS["C06"], "plain")
+binp = vc.build_binary("C06", vc.CHECKS["C06"], os.environ.get("C06_SURVEY_FLAVOUR", "plain"))
+os.environ.update(vc.RUN_ENV[os.environ.get("C06_SURVEY_FLAVOUR", "plain")])
 nsh = int(os.environ.get("VERIF_JOBS", "16"))
 outs = []
 procs = []
